@@ -79,12 +79,20 @@ def stanzaLocal (l : String) : Bool := l == "iq" || l == "message" || l == "pres
 def isStanzaEmptySpace (n : Name) : Bool :=
   stanzaLocal n.loc && (n.space == nsClient || n.space == nsServer || n.space == "")
 
-/-- the attribute loop of the depth-1 branch keeps everything but `id=""` and `from=""`
-(any attribute namespace: the code switches on `attr.Name.Local`) -/
-def keepAttr (a : Attr) : Bool := !((a.name.loc == "id" || a.name.loc == "from") && a.value == "")
+/-- the stanza attribute `l`: the attribute WITHOUT a namespace of that local name (round E,
+after `fix: the stanza encoder takes any attribute with the local name id, from or xmlns …`;
+the code before the fix switched on `attr.Name.Local` alone, see `keepAttrLocal`) -/
+def isPlain (a : Attr) (l : String) : Bool := a.name.space == "" && a.name.loc == l
 
-/-- `foundID` / `foundFrom`: some attribute with that local name and a non-empty value -/
-def found (as : List Attr) (l : String) : Bool := as.any fun a => a.name.loc == l && a.value != ""
+/-- the attribute loop of the depth-1 branch keeps everything but `id=""` and `from=""` -/
+def keepAttr (a : Attr) : Bool := !((isPlain a "id" || isPlain a "from") && a.value == "")
+
+/-- `foundID` / `foundFrom`: some attribute of that full name with a non-empty value -/
+def found (as : List Attr) (l : String) : Bool := as.any fun a => isPlain a l && a.value != ""
+
+/-- the code before the round E fix: identification by local name, whatever the namespace -/
+def keepAttrLocal (a : Attr) : Bool := !((a.name.loc == "id" || a.name.loc == "from") && a.value == "")
+def foundLocal (as : List Attr) (l : String) : Bool := as.any fun a => a.name.loc == l && a.value != ""
 
 def fromAttr (cfg : Cfg) : Attr := ⟨⟨"", "from"⟩, cfg.from_⟩
 def idAttr (fresh : String) : Attr := ⟨⟨"", "id"⟩, fresh⟩
@@ -95,7 +103,7 @@ def completeAttrs (cfg : Cfg) (fresh : String) (as : List Attr) : List Attr :=
     ++ (if cfg.from_ != "" && !found as "from" then [fromAttr cfg] else [])
     ++ (if !found as "id" then [idAttr fresh] else [])
 
-def notXmlns (a : Attr) : Bool := a.name.loc != "xmlns"
+def notXmlns (a : Attr) : Bool := !(a.name.space == "" && a.name.loc == "xmlns")
 
 /-- the duplicate-`xmlns` loop: runs for every start element -/
 def dropXmlns (n : Name) (as : List Attr) : List Attr :=
@@ -108,6 +116,18 @@ def encStart (cfg : Cfg) (fresh : String) (d : Int) (n : Name) (as : List Attr) 
   if d == 1 && isStanzaEmptySpace n then
     .start (fillNs cfg n) (dropXmlns (fillNs cfg n) (completeAttrs cfg fresh as))
   else .start n (dropXmlns n as)
+
+/-- the encoder before the round E fix (attributes identified by local name only): NOT what the
+code does any more, see `C05_local_name_matching_fails` -/
+def encStartLocal (cfg : Cfg) (fresh : String) (d : Int) (n : Name) (as : List Attr) : Tok :=
+  let dropL (m : Name) (l : List Attr) : List Attr :=
+    if m.space != "" then l.filter (fun a => a.name.loc != "xmlns") else l
+  if d == 1 && isStanzaEmptySpace n then
+    .start (fillNs cfg n) (dropL (fillNs cfg n)
+      (as.filter keepAttrLocal
+        ++ (if cfg.from_ != "" && !foundLocal as "from" then [fromAttr cfg] else [])
+        ++ (if !foundLocal as "id" then [idAttr fresh] else [])))
+  else .start n (dropL n as)
 
 /-- the variant that runs the duplicate-`xmlns` loop first, on the name the caller gave (before
 the stamping step assigns the stream namespace): NOT what the code does, see
@@ -183,15 +203,15 @@ def replaceOuter (n : Name) (as : List Attr) : Nat → List Tok → List Tok
   | d + 2, .stop m :: ts => .stop m :: replaceOuter n as (d + 1) ts
   | d, t :: ts => t :: replaceOuter n as d ts
 
-/-- `getIDTyp` of session.go: scan the attributes, remember the last `id` and `type` seen, stop
+/-- `getIDTyp` of session.go: scan the attributes (those without a namespace), remember the last `id` and `type` seen, stop
 as soon as both have been seen; result: index of the id attribute, id, type -/
 def getIDTyp : List Attr → Nat → Option Nat → Bool → String → String → Option Nat × String × String
   | [], _, idIdx, _, id, typ => (idIdx, id, typ)
   | a :: as, i, idIdx, seenTyp, id, typ =>
-    let idIdx' := if a.name.loc == "id" then some i else idIdx
-    let id' := if a.name.loc == "id" then a.value else id
-    let seenTyp' := seenTyp || a.name.loc == "type"
-    let typ' := if a.name.loc == "type" then a.value else typ
+    let idIdx' := if isPlain a "id" then some i else idIdx
+    let id' := if isPlain a "id" then a.value else id
+    let seenTyp' := seenTyp || isPlain a "type"
+    let typ' := if isPlain a "type" then a.value else typ
     if idIdx'.isSome && seenTyp' then (idIdx', id', typ') else getIDTyp as (i + 1) idIdx' seenTyp' id' typ'
 
 def setValueAt : List Attr → Nat → String → List Attr
@@ -228,6 +248,14 @@ def stanzaSendToks (k : Kind) (fresh : String) : List Tok → Except StanzaErr (
 
 /-- tokens reaching the underlying `xml.Encoder` for a call on a fresh (depth 0) encoder -/
 def wireToks (cfg : Cfg) (fresh : String) (ts : List Tok) : List Tok := (encode cfg fresh 0 ts).2
+
+/-- number of top-level elements in a token list read at depth `d` (start tokens at depth 0) -/
+def topCount : Nat → List Tok → Nat
+  | _, [] => 0
+  | 0, .start _ _ :: ts => 1 + topCount 1 ts
+  | d + 1, .start _ _ :: ts => topCount (d + 2) ts
+  | d, .stop _ :: ts => topCount (d - 1) ts
+  | d, _ :: ts => topCount d ts
 
 /-! ### buffering: `xml.Encoder` writes into a buffer that only `Flush` moves to the connection -/
 
